@@ -32,6 +32,11 @@ def getQuirks (j : Json) : Quirks :=
   | .ok (.str "ideal") => Quirks.ideal
   | _ => Quirks.current
 
+def getRx (j : Json) : Rx :=
+  match j.getObjVal? "rx" with
+  | .ok (.str "baseline") => Rx.baseline
+  | _ => Rx.live
+
 def jCErr : CErr → Json
   | .template cls msg tok => Json.mkObj [("exc", "TemplateError"), ("cls", Json.str cls), ("msg", Json.str msg),
       ("token", jStr tok.str), ("offset", jNat tok.pos)]
@@ -45,6 +50,28 @@ def jSRes : SRes Str → Json
 def isTagKind : Kind → Bool
   | .startTag | .emptyTag | .endTag | .xmlDecl => true
   | _ => false
+
+def getQIn (j : Json) : Except String QIn := do
+  let k ← getS j "k"
+  match k with
+  | "none" => pure .none
+  | "marker" => pure .marker
+  | "bytes" => pure (.bytes (← getStr j "s"))
+  | "str" => pure (.str (← getStr j "s"))
+  | "num" => pure (.num (← getStr j "s"))
+  | "html" => pure (.html (← getStr j "s"))
+  | "other" =>
+    let sf ← getStr j "s"
+    let t ← j.getObjVal? "t"
+    match t with
+    | .null => pure (.other sf Option.none)
+    | .str x => pure (.other sf (some (some (Str.ofString x))))
+    | _ => pure (.other sf (some Option.none))
+  | _ => throw "bad value kind"
+
+def jOptStr : Option Str → Json
+  | some s => jStr s
+  | none => Json.null
 
 def handle (j : Json) : Except String Json := do
   let op ← getS j "op"
@@ -65,17 +92,30 @@ def handle (j : Json) : Except String Json := do
   | "tokens" =>
     let s ← getStr j "s"
     pure (jArr ((iterXml s).map jTok))
+  | "quote" =>
+    let site ← getS j "site"
+    let vals ← (← j.getObjVal? "vals").getArr?
+    let qs ← vals.toList.mapM getQIn
+    let dflt : Option Str := match getStr j "default" with | .ok d => some d | _ => Option.none
+    match site with
+    | "text" => pure (jArr (qs.map (fun v => jOptStr (quoteVal Site.text.q Site.text.qe dflt v))))
+    | "dq" => pure (jArr (qs.map (fun v => jOptStr (quoteVal Site.dq.q Site.dq.qe dflt v))))
+    | "sq" => pure (jArr (qs.map (fun v => jOptStr (quoteVal Site.sq.q Site.sq.qe dflt v))))
+    | "content" => pure (jArr (qs.map (fun v => jOptStr (quoteVal Site.content.q Site.content.qe dflt v))))
+    | "none" => pure (jArr (qs.map (fun v => jOptStr (convertVal v))))
+    | _ => throw "bad site"
   | "static" =>
     let s ← getStr j "s"
-    pure (jSRes (staticRender (getQuirks j) true s))
+    pure (jSRes (staticRenderWith (getRx j) (getQuirks j) true s))
   | "dissect" =>
     -- per document: are all its tags dissected without loss, and does the static path accept it?
     let s ← getStr j "s"
     let body := if isXmlDoc s then s else normalizeNewlines s
-    let toks := iterXml body
-    let tags := toks.filter (fun t => match identify t with | .ok k => isTagKind k | _ => false)
-    let allOk := tags.all (fun t => match matchTag t with | some g => g.dissectOK t | none => false)
-    let r := staticRender (getQuirks j) true s
+    let rx := getRx j
+    let toks := iterXmlWith rx.xmlSpe body
+    let tags := toks.filter (fun t => match identify rx t with | .ok k => isTagKind k | _ => false)
+    let allOk := tags.all (fun t => match matchTagWith rx t with | some g => g.dissectOK t | none => false)
+    let r := staticRenderWith rx (getQuirks j) true s
     let compiles := match r with | .ok _ => true | .error (.unsupported _) => true | _ => false
     let stmtFree := match r with | .error (.unsupported _) => false | _ => true
     pure (Json.mkObj [("dissect_ok", Json.bool allOk), ("compiles", Json.bool compiles),
